@@ -9,6 +9,8 @@ import (
 //信息流到达EOF错误信息用于标识binlog流结束
 var (
 	errStreamEOF = errors.New("stream reached EOF") //信息流到达EOF
+	// errMalformedErrorPacket: an error packet too short to be decoded
+	errMalformedErrorPacket = errors.New("malformed error packet")
 )
 
 //Error gobinlog的错误
